@@ -2,6 +2,4 @@ package genwl
 
 import "verifharness/monitor"
 
-func runC18(cfg *config, res *monitor.Result)   {}
-func runC19(cfg *config, res *monitor.Result)   {}
 func runReplay(cfg *config, res *monitor.Result) {}
